@@ -4,6 +4,7 @@ import (
 	"fmt"
 	"io"
 	"os"
+	"sort"
 
 	kv "github.com/XiXi-2024/xixi-kv"
 	"github.com/XiXi-2024/xixi-kv/datafile"
@@ -242,6 +243,10 @@ func mergeTrace(en *Env, cfg h.Cfg, t int) (merges, mok int) {
 		cfg.Index = []string{"btree", "skiplist"}[(t/4)%2]
 		nkeys = 5 + r.Intn(3)
 	}
+	brim := t%6 == 1
+	if brim && !bigKeys {
+		cfg.Limit = 1 << 20 // everything written before the restart shares one file
+	}
 	dir := en.FreshDir()
 	defer en.Drop(dir)
 	var u *h.Keys
@@ -315,6 +320,31 @@ func mergeTrace(en *Env, cfg h.Cfg, t int) (merges, mok int) {
 		big := e.Cfg
 		small := e.Cfg
 		small.Limit = 120
+		if brim {
+			// the smaller limit sits at the brim: the first k live records fill a file to within a few bytes, so
+			// the exact size of the k-th fits where the size estimate the rotation uses does not
+			var ps []datafile.DataPos
+			h.WithoutCapture(func() {
+				for _, en := range e.DB.VerifState().Index {
+					ps = append(ps, en.Pos)
+				}
+			})
+			sort.Slice(ps, func(i, j int) bool {
+				a, b := ps[i], ps[j]
+				if a.Fid != b.Fid {
+					return a.Fid < b.Fid
+				}
+				if a.BlockID != b.BlockID {
+					return a.BlockID < b.BlockID
+				}
+				return a.Offset < b.Offset
+			})
+			k := 1 + r.Intn(len(ps))
+			small.Limit = int64([]int{0, 0, 1, 7, 20, 33, 34, 36}[r.Intn(8)])
+			for _, p := range ps[:k] {
+				small.Limit += int64(p.Size)
+			}
+		}
 		e.Dump()
 		if e.Close() != "ok" || e.Open(small) != "ok" {
 			return
